@@ -1364,6 +1364,6 @@ func TestRtspCommand(t *testing.T) {
 	resetNotes()
 	pbt.Run(t, pbt.Spec[RtspCase]{
 		ID: "C13", Name: "rtsp-command", Gen: genRtspCase, Run: runRtsp, Classify: classifyRtsp, Isolate: true,
-		Quick: 700, Thorough: 4000,
+		Quick: 150, Thorough: 2000,
 	})
 }
